@@ -60,6 +60,33 @@ theorem add_shift (o : Opts) (d : Doc) (hd : SrcOK d) :
   unfold SourceMap.add
   rw [if_neg (by omega)]
 
+/-- T3b `entries_complete`: no anchor of a `SrcOK` document is lost on the way into the map — the entry
+    list has one entry per anchor, in the same order. -/
+theorem entries_complete (o : Opts) (d : Doc) (hd : SrcOK d) :
+    ((render o d).anchors.filterMap (fun a => SourceMap.add a.dstLine a.dstCol a.srcLine a.srcCol)).length
+      = (render o d).anchors.length := by
+  have h := add_shift o d hd
+  generalize (render o d).anchors = l at h
+  induction l with
+  | nil => rfl
+  | cons a l ih =>
+    obtain ⟨e, he, _⟩ := h a (List.mem_cons_self)
+    rw [List.filterMap_cons, he]
+    simp only [List.length_cons]
+    rw [ih (fun b hb => h b (List.mem_cons_of_mem a hb))]
+
+/-- T3c `add_injective`: the shift never collapses two positions — anchors that are stored as the same
+    entry agree on all four coordinates (wherever `add` does not underflow). -/
+theorem add_injective (a b c d' a' b' c' d'' : Nat) (e : SourceMap.Entry)
+    (h : SourceMap.add a b c d' = some e) (h' : SourceMap.add a' b' c' d'' = some e) :
+    a = a' ∧ b = b' ∧ c = c' ∧ d' = d'' := by
+  unfold SourceMap.add at h h'
+  split at h
+  · cases h
+  · split at h'
+    · cases h'
+    · cases h; simp only [Option.some.injEq, SourceMap.Entry.mk.injEq] at h'; omega
+
 /-- Without the side condition the shift underflows (a panic in the dev profile, a wrapped 2^32-1 in
     release): an `Anchored` node with source column 0. -/
 theorem add_shift_needs_side_condition :
